@@ -94,7 +94,7 @@ def cases(ctx):
             yield {"k": "nest", "depth": d, "else": False}
             yield {"k": "nest", "depth": d, "else": True}
     # grammar scripts + mutations
-    n = (2500 if thorough else 120)
+    n = (5000 if thorough else 120)
     for i in range(n):
         minimal = r.random() < 0.4
         nt = r.choice([1, 2, 3, 5, 8, 13, 25, 60, 150])
@@ -260,9 +260,13 @@ def judge(ctx, case):
             req["len"] = case["len"]
             req["seed"] = case["seed"]
             L = case["len"]
+        req["guard"] = (256 << 20) + 16 * L
         r = ctx.call(req)
         ctx.ev()
         exp = wire.push_prefix(L)
+        if "alloc_guard" in r or "timeout" in r or "death" in r:
+            ctx.note("encode_pushdata probe hit a harness limit (%s) for len=%d: no verdict" % ([q for q in ("alloc_guard", "timeout", "death") if q in r][0], L))
+            return
         if "ok" not in r:
             sym = "error" if "err" in r else "panic" if "panic" in r else "other"
             ctx.viol("encode_pushdata %s%s" % (sym, " (len=65536)" if L == 65536 else ""), {"len": L, "resp": {k_: r[k_] for k_ in r if k_ in ("err", "panic")}})
